@@ -1,5 +1,8 @@
 #!/bin/bash
 for s in ${SEEDS:-0 1}; do
+tools/seeded_run.sh C16-c $s C16
+tools/seeded_run.sh C01-d $s C19 C01
+tools/seeded_run.sh C13-d $s C06 C13
 tools/seeded_run.sh C06-d $s C06
 tools/seeded_run.sh C02-d $s C02
 tools/seeded_run.sh C17-d $s C17
